@@ -115,6 +115,53 @@ Theorem C14_gc_exact : forall c s,
 Proof. intros c s. exact (conj (vip_gc_exact c s) (conj (rule_gc_exact c s) (spec_gc_exact c s))). Qed.
 Print Assumptions C14_gc_exact.
 
+(** owners appear at arbitrary points, also in the middle of a collection: a history with collections during which
+    an owner appears and registers an entry ([XVipGcWith], [XRuleGcWith], [XSpecGcWith]) is the history in which
+    "appears; registers; collect" take place in that order - so every theorem of this file, all of which quantify
+    over all operation lists, covers such histories; the two headline invariants restated: *)
+Theorem C14_concurrent_histories : forall c xs s0,
+  xrun c xs s0 = run c (flat_map lin xs) s0 /\
+  (wf c s0 ->
+   (forall k o1 o2, In (k, o1) (s_vips (xrun c xs s0)) -> In (k, o2) (s_vips (xrun c xs s0)) -> o1 = o2) /\
+   (forall k o1 o2, In (k, o1) (s_rules (xrun c xs s0)) -> In (k, o2) (s_rules (xrun c xs s0)) -> o1 = o2) /\
+   (forall k o1 o2, In (k, o1) (s_specs (xrun c xs s0)) -> In (k, o2) (s_specs (xrun c xs s0)) -> o1 = o2) /\
+   (forall a o, In (a, o) (s_vips (xrun c xs s0)) -> in_cidr c a = true)).
+Proof.
+  intros c xs s0. split; [exact (xrun_lin c xs s0)|]. intros H. rewrite (xrun_lin c xs s0).
+  destruct (run_exclusive c (flat_map lin xs) s0 H) as (E1 & E2 & E3).
+  exact (conj E1 (conj E2 (conj E3 (fun a o => run_in_network c (flat_map lin xs) s0 a o H)))).
+Qed.
+Print Assumptions C14_concurrent_histories.
+
+(** an entry whose owner exists at the moment the collector visits it is never reclaimed: in a collection during
+    which owner [o] appears and registers, exactly the entries whose owner is neither live before nor [o] go;
+    everything held by a live owner or by the newcomer stays, the newcomer's new entry included *)
+Theorem C14_gc_live_at_visit : forall c s,
+  (forall k o, let s' := fst (xstep c (XRuleGcWith k o) s) in
+     (forall k' o', In (k', o') (s_rules s') <->
+                    In (k', o') (s_rules (run c [AppUp o; RuleCreate k o] s)) /\ In o' (add_z o (s_apps s))) /\
+     (forall k' o', In (k', o') (s_rules s) -> In o' (add_z o (s_apps s)) -> In (k', o') (s_rules s')) /\
+     (lookup Z.eqb k (s_rules s) = None -> In (k, o) (s_rules s')) /\
+     s_vips s' = s_vips s /\ s_specs s' = s_specs s /\ s_res s' = s_res s /\ s_devs s' = s_devs s) /\
+  (forall k o, let s' := fst (xstep c (XSpecGcWith k o) s) in
+     (forall k' o', In (k', o') (s_specs s') <->
+                    In (k', o') (s_specs (run c [AppUp o; SpecCreate k o] s)) /\ In o' (add_z o (s_apps s))) /\
+     (forall k' o', In (k', o') (s_specs s) -> In o' (add_z o (s_apps s)) -> In (k', o') (s_specs s')) /\
+     (lookup spec_eqb k (s_specs s) = None -> In (k, o) (s_specs s')) /\
+     s_vips s' = s_vips s /\ s_rules s' = s_rules s /\ s_res s' = s_res s /\ s_devs s' = s_devs s) /\
+  (forall o picked, let s' := fst (xstep c (XVipGcWith o picked) s) in
+     (forall k' o', In (k', o') (s_vips s') <->
+                    In (k', o') (s_vips (run c [ResUp o; VipAlloc o picked] s)) /\ In o' (add_z o (s_res s))) /\
+     (forall k' o', In (k', o') (s_vips s) -> In o' (add_z o (s_res s)) -> In (k', o') (s_vips s')) /\
+     (forall a, snd (step c (VipAlloc o picked) (fst (step c (ResUp o) s))) = RAddr a -> In (a, o) (s_vips s')) /\
+     s_rules s' = s_rules s /\ s_specs s' = s_specs s /\ s_apps s' = s_apps s /\ s_devs s' = s_devs s).
+Proof.
+  intros c s.
+  exact (conj (fun k o => proj2 (rule_gc_with_exact c k o s))
+        (conj (fun k o => proj2 (spec_gc_with_exact c k o s)) (fun o p => proj2 (vip_gc_with_exact c o p s)))).
+Qed.
+Print Assumptions C14_gc_live_at_visit.
+
 (** synchronize: every stale device is deleted and its address freed, no stale device remains, nothing is
     added, and (when it completes) the surviving addresses belong to existing owners *)
 Theorem C14_sync_frees_stale : forall c ops s0, wf c s0 ->
@@ -174,6 +221,15 @@ Example C14_nonvacuous :
   undisturbed may_remove_vip ex_c (skipn 5 ex_ops) (run ex_c (firstn 5 ex_ops) empty_state) 167772161 1 = true /\
   undisturbed may_remove_vip ex_c (skipn 6 ex_ops) (run ex_c (firstn 6 ex_ops) empty_state) 167772162 2 = false.
 Proof. split; [exact (wf_empty ex_c)|]. vm_compute. repeat split. Qed.
+
+(** a collection during which owner 2 (gone before) re-appears and registers rule 3: its old rule 2, its new rule 3
+    and live owner 1's rule survive, dead owner 4's rule goes *)
+Example C14_concurrent_nonvacuous :
+  let s := run ex_c [AppUp 1; AppUp 2; AppUp 4; RuleCreate 1 1; RuleCreate 2 2; RuleCreate 4 4; AppDown 2; AppDown 4] empty_state in
+  s_rules s = [(1, 1); (2, 2); (4, 4)] /\ s_apps s = [1] /\
+  s_rules (fst (xstep ex_c (XRuleGcWith 3 2) s)) = [(1, 1); (2, 2); (3, 2)] /\
+  s_rules (fst (step ex_c RuleGc s)) = [(1, 1)].
+Proof. vm_compute. repeat split. Qed.
 
 (** service schedule: create, repeat, restart + replay + synchronize frees the device that was not replayed *)
 Definition ex_svc :=
